@@ -77,7 +77,7 @@ def run(ctx):
                            "what": f"input {k}: result differs between PYTHONHASHSEED=0 and {seeds[:3]}",
                            "payload": {"input": k, "hashseeds": ["0"] + seeds, "tier": ctx["tier"], "seed": ctx["seed"],
                                        "replay": "PYTHONHASHSEED=<n> /venv/bin/python harness/seed_worker.py /repo <tier> <seed>"}})
-    if unaudited and not violations:
+    if unaudited:
         path = common.write_replay("C12", {"property": "C12", "kind": "proof-no-longer-covers-the-code",
                                            "theorem": "Scfg.C12.sortNames_perm + audit table of set-iteration sites",
                                            "unaudited_sites": [s for s in sites if (s["file"].split("/")[-1], s["function"], s["expr"], s["use"]) in unaudited],
